@@ -57,8 +57,8 @@ type checker struct {
 func Run(ctx *core.Ctx) {
 	ctx.Rule = "cases: (abstract Go value g, struct options o). M2: TLC enumerates every g of depth<=2 from the bounded pools of SoyData.tla (all int/float kinds with boundary values, NaN/Inf/-0, typed nils, interface nesting, time, declared and reflect.StructOf struct types, marshalers, data.Values) with the expected Soy value per option setting; the harness builds the real Go value, runs data.NewWith and compares, re-converts (idempotence), checks Truthy/String, renders through Tofu.Render; all pairs of a depth<=1 family go through Equals. M3: seeded random g of depth<=5 converted by the real code and validated by TLC. A case is non-trivial if g is not the untyped nil; distinct by canonical descriptor (+ options)"
 	ctx.Assumptions = append(ctx.Assumptions,
-		"oracle = SoyData.tla, written from the property statement, the Soy truthiness/equality definitions and what data/convert_test.go pins (nil slice -> empty list, nil pointer -> null, lowerCamel = first letter lowered, unexported fields skipped, time formatted with StructOptions.TimeFormat, marshaler result taken as is)",
-		"not judged (no source decides): nil map -> empty map or null; embedded struct -> nested under its type name or promoted; equality of distinct list/map instances beyond symmetry; text of +-Inf and of fractional floats; Go arrays and other kinds the converter rejects by panicking; uint64 >= 2^63; pointers to data.Values",
+		"oracle = SoyData.tla, written from the property statement, the Soy truthiness/equality definitions and what the repository's tests pin (data/convert_test.go: nil slice -> empty list, nil pointer -> null, lowerCamel = first letter lowered, unexported fields skipped, time formatted with StructOptions.TimeFormat, marshaler result taken as is; features_test.go: a nil map passed to Tofu.Render is a map)",
+		"not judged (no source decides): embedded struct -> nested under its type name or promoted; equality of distinct list/map instances beyond symmetry; text of +-Inf and of fractional floats; Go arrays and other kinds the converter rejects by panicking; uint64 >= 2^63; pointers to data.Values",
 		"integers within int64 (|n| >= 2^30 cross the TLC boundary as digit strings and are only compared as strings); floats restricted to small dyadic rationals, NaN/+-Inf/-0 symbolic")
 	ctx.Trusted = append(ctx.Trusted, "Go harness: construction of real Go values from descriptors (reflect), deep comparison, encoders", "TLC 1.8 + CommunityModules Json")
 	c := &checker{ctx: ctx, size: ctx.Pick(1, 2), byG: map[string]bool{}, tofu: map[string]*soyhtml.Tofu{}, unsupported: map[string]string{}}
@@ -145,7 +145,7 @@ func (c *checker) run() {
 		devJobs[d.name] = add("M1-deviation-"+d.name, core.TLCOpts{Module: d.module, Cfg: c.cfg(d.name, extra, d.inv), Workers: 1})
 	}
 	// M3: record real conversions while TLC works, then validate
-	traceChunks := c.recordTraces(ctx.Pick(3000, 40000), ctx.Pick(1500, 5000))
+	traceChunks := c.recordTraces(ctx.Pick(3000, 80000), ctx.Pick(1500, 5000))
 	var traceJobs []*job
 	for i, ch := range traceChunks {
 		traceJobs = append(traceJobs, add(fmt.Sprintf("M3-trace-%d", i), core.TLCOpts{Module: "SoyDataTrace",
@@ -181,6 +181,7 @@ func (c *checker) run() {
 	}
 	ctx.Extra["m1_reference_holds"] = m1ok
 	ctx.Exhaustive = true // the bounded pools are enumerated completely
+	ctx.Extra["exhaustive_scope"] = "M1/M2: the bounded pools of SoyData.tla (every abstract Go value of depth <= 2 built from them, all option settings, all ordered pairs of the depth <= 1 family) are enumerated completely; M3 is a seeded sample"
 
 	// M2: replay
 	for _, j := range mcJobs {
